@@ -1981,6 +1981,10 @@ void XMLDateTime::serialize(XSerializeEngine& serEng)
         serEng<<(unsigned long)fEnd;
 
         serEng.writeString(fBuffer, fBufferMaxLen, XSerializeEngine::toWriteBufferLen);
+
+        // the fraction of a second and the time flag are part of the value
+        serEng<<fMilliSecond;
+        serEng<<fHasTime;
     }
     else
     {
@@ -2000,6 +2004,8 @@ void XMLDateTime::serialize(XSerializeEngine& serEng)
         XMLSize_t dataLen = 0;
         serEng.readString(fBuffer, fBufferMaxLen, dataLen ,XSerializeEngine::toReadBufferLen);
 
+        serEng>>fMilliSecond;
+        serEng>>fHasTime;
     }
 
 }
